@@ -91,6 +91,7 @@ type Worker struct {
 	initDepth int
 	finfo     map[*ssa.Function]*FuncInfo
 	harnessFn map[*ssa.Function]bool
+	models    map[*ssa.Function]*ssa.Function
 	npaths    int
 	strConsts map[string]int
 	globalWriteOK map[string]bool
@@ -717,7 +718,7 @@ func (e *Engine) newWorker(id int, old *Worker) *Worker {
 	ts := NewTermStore()
 	w := &Worker{id: id, prog: e.prog, ts: ts, eng: e,
 		baseObjs: map[int]*Obj{}, globals: map[*ssa.Global]int{}, initState: map[*ssa.Package]int{},
-		finfo: map[*ssa.Function]*FuncInfo{}, harnessFn: map[*ssa.Function]bool{}, strConsts: map[string]int{},
+		finfo: map[*ssa.Function]*FuncInfo{}, harnessFn: map[*ssa.Function]bool{}, models: map[*ssa.Function]*ssa.Function{}, strConsts: map[string]int{},
 		instrLimit: 20_000_000, unwindLimit: 100_000, funcsSeen: map[string]bool{},
 		globalWriteOK: map[string]bool{},
 	}
